@@ -11,8 +11,8 @@ from ..runner import ok, violation, inconclusive
 
 RULE = ("histories of 1..6 steps (edit the tree; run `group --cache` with configuration c_i) on trees whose files share long "
         "prefixes and suffixes; after every step the same configuration runs uncached (fresh $HOME) on the same tree state and "
-        "the report bodies (groups, order, paths, lengths, hashes) must be identical. Edits: create, modify same length, "
-        "append, truncate, rename/move, delete-and-recreate (inode reuse is measured), hard-link, copy; the harness enforces "
+        "the report bodies (groups, order, paths, lengths, hashes) must be identical. Edits: create, modify same length (mtime forwards, or backwards as "
+        "after restoring an older copy), append, truncate, rename/move, delete-and-recreate (inode reuse is measured), hard-link, copy; the harness enforces "
         "the proviso (mtime in ms or length changes with every content change). Configurations switch hash function, "
         "transform, prefix/suffix sizes and pinned disk kind between steps; some cached runs are SIGKILLed at a hook pause "
         "point (after the first prefix hash / after all hashing) before the history continues. Cache hits are counted from the "
@@ -42,7 +42,7 @@ class Tree:
     def path(self, rel):
         return os.path.join(self.root, rel)
 
-    def write(self, rel, spec, fresh=False):
+    def write(self, rel, spec, fresh=False, backdate_ms=None):
         p = self.path(rel)
         prev = None
         if os.path.exists(p) and not fresh:
@@ -52,7 +52,10 @@ class Tree:
         with open(p, "wb") as f:
             f.write(tree.content(*spec))
         st = os.stat(p)
-        if prev and (st.st_mtime_ns // 1_000_000, st.st_size) == prev:
+        if prev and backdate_ms:
+            # content restored from an older copy (cp -p, rsync -t, tar -x): the mtime changes, but backwards
+            os.utime(p, ns=(st.st_atime_ns, (prev[0] - backdate_ms) * 1_000_000))
+        elif prev and (st.st_mtime_ns // 1_000_000, st.st_size) == prev:
             os.utime(p, ns=(st.st_atime_ns, st.st_mtime_ns + 1_000_000))
         self.files[rel] = spec
 
@@ -73,7 +76,8 @@ class Tree:
 
     def edit(self):
         r = self.r
-        kind = r.choice(["create", "modify", "append", "truncate", "rename", "recreate", "hardlink", "copy", "touch-content-back"])
+        kind = r.choice(["create", "modify", "append", "truncate", "rename", "recreate", "hardlink", "copy", "touch-content-back",
+                         "modify-backdated"])
         rels = sorted(self.files)
         if not rels:
             kind = "create"
@@ -85,6 +89,11 @@ class Tree:
             fam, L, fl = self.files[rel]
             self._unlink_links(rel)
             self.write(rel, (fam, L, (r.choice([0, L // 2, L - 1, L // 3]),)))
+        elif kind == "modify-backdated":
+            fam, L, fl = self.files[rel]
+            self._unlink_links(rel)
+            new = (fam, L, (r.choice([0, L // 2, L - 1, L // 3]),)) if fl == () or r.random() < 0.5 else (fam, L, ())
+            self.write(rel, new, backdate_ms=r.choice([1, 2, 1000, 86_400_000]))
         elif kind == "append":
             fam, L, fl = self.files[rel]
             self._unlink_links(rel)
